@@ -807,6 +807,9 @@ def c16(case):
         fails.append('failure at evaluation %d: reported trial count %d, expected %d' % (k, sol.numberOfGlobalTrials, k - 1))
     if [tuple(y) for y, _ in p.log] != [tuple(y) for y, _ in p0.log]:
         fails.append('completed trials differ from the first %d trials of the undisturbed run' % (k - 1))
+    if sol.solutionAccuracy != s0.GetResults().solutionAccuracy:
+        fails.append('failure at evaluation %d: reported accuracy %r, but the %d completed trials give %r (the interval selected for the failed trial was not subdivided)'
+                     % (k, sol.solutionAccuracy, k - 1, s0.GetResults().solutionAccuracy))
     fails += best_check(p, s, sol, where='after failure at %d: ' % k)
     fails += record_check(case, p, s, where='after failure at %d: ' % k)
     a = [(i.GetX(), i.GetZ()) for i in H.items(s)]
